@@ -13,6 +13,7 @@
 //   stdout, one line per case: the observations in global order, e.g.
 //     ret:H:0 sched:0 sched:1 sched:2 spawn ret:SM:1 notify:start exec:0 ... done ret:J:0
 //   or  STUCK <why> | <observations so far>   when the schedule cannot be followed.
+//   A schedule starting with 't' is followed tolerantly (see controlled()).
 //
 // The RIME_VERIF_YIELD hooks of librime park each thread at its cut point; the
 // controller (main thread) releases exactly one thread per schedule letter and
@@ -246,9 +247,9 @@ std::string join_events() {
 bool worker_alive = false;
 
 // release thread t for one macro step; "" on success, else why it could not be done
-std::string controller_step(int t) {
+std::string controller_step(int t, int deadline_ms = 10000) {
   Deployer& dep = Service::instance().deployer();
-  auto deadline = std::chrono::steady_clock::now() + std::chrono::seconds(10);
+  auto deadline = std::chrono::steady_clock::now() + std::chrono::milliseconds(deadline_ms);
   std::unique_lock<std::mutex> l(M);
   if (t == 1 && !worker_alive)
     return "no-worker";
@@ -359,10 +360,34 @@ int controlled(const std::string& work) {
     }
     std::string why;
     size_t i = 0;
-    for (; i < sched.size(); ++i) {
-      why = controller_step(sched[i] == 'c' ? 0 : 1);
-      if (!why.empty())
-        break;
+    // a schedule starting with 't' is followed tolerantly (failing-input search when the model
+    // and the library disagree): a letter whose thread cannot run is skipped, a thread that does
+    // not come back within 0.5 s is left running, and at the end the worker, then the client,
+    // are run to completion so that the whole script is observed.
+    bool tolerant = !sched.empty() && sched[0] == 't';
+    if (tolerant) {
+      for (i = 1; i < sched.size(); ++i)
+        controller_step(sched[i] == 'c' ? 0 : 1, 500);
+      for (int n = 0; n < 400; ++n) {
+        bool alive, cdone;
+        {
+          std::lock_guard<std::mutex> l(M);
+          alive = worker_alive;
+          cdone = slots[0].done;
+        }
+        if (alive && controller_step(1, 500).empty())
+          continue;
+        if (cdone)
+          break;
+        if (!controller_step(0, 500).empty() && !alive)
+          break;
+      }
+    } else {
+      for (; i < sched.size(); ++i) {
+        why = controller_step(sched[i] == 'c' ? 0 : 1);
+        if (!why.empty())
+          break;
+      }
     }
     std::string ev = join_events();
     if (!why.empty())
